@@ -1,12 +1,36 @@
 from verif import Ob
-META = {'bounds': 'one text part, framing concrete (boundary "b", CRLF line ends, one Content-Disposition header), part data of 2 symbolic bytes (all values incl. CR LF - b), delivered whole and with one cut at a constant position per query',
-        'outside': 'more than one part, file parts, preamble/epilogue, LF-only line ends, names with escapes, longer data, more than one cut', 'assumptions': ['htp_log stubbed', 'fixed-capacity bstr_alloc'], 'trusted_base': ['harness/mp/split.c']}
-U = ['htp_multipart.c', 'bstr_builder.c', 'htp_list.c', 'htp_table.c', 'bstr.c', 'htp_util.c', 'htp_utf8_decoder.c']
-def ob(cut, nd=2, tier='quick', timeout=900, mem_gb=12):
-    return Ob('mp.one_text_part.ND%d.cut%d' % (nd, cut), 'mp/split.c', units=U, models=['@libc_model.c', '@fixed_alloc.c'], remove=['htp_log', 'bstr_alloc', 'bstr_expand'], defines={'ND': nd, 'CUT': cut, 'FA_CAP': 80}, unwind=12,
-              unwind_by=[(r'^harness\.', 80), (r'^htp_mpartp_parse\.', 75), (r'^htp_mpartp_parse_header|^htp_mpart_part_parse_c_d|^htp_mpart_decode', 60), (r'^strlen', 40), (r'^bstr_util_cmp|^bstr_begins|^bstr_util_mem_index|^bstr_to_lower|^bstr_builder', 50),
-                         (r'^htp_mpart_part_handle_data|^htp_martp_process_aside|^htp_mpartp_handle', 60), (r'^htp_chomp', 4), (r'^memchr', 60), (r'^htp_list|^htp_table', 12), (r'^check', 4)],
-              tier=tier, timeout=timeout, mem_gb=mem_gb, statement='one generated text part through the whole real multipart parser: type, name and value exact, whole == split at this cut, flags equal',
-              bounds='framing concrete, %d symbolic data bytes, cut %d' % (nd, cut))
+META = {'bounds': 'TBD', 'outside': 'TBD', 'assumptions': ['htp_log stubbed', 'fixed-capacity bstr_alloc'], 'trusted_base': ['harness/mp/match.c']}
+UM = ['bstr.c', 'htp_util.c', 'htp_utf8_decoder.c']
+def match(shape, nd, cuts=None, maxchunk=1, label='split', tier='quick', timeout=900, mem_gb=12):
+    d = {'ND': nd, 'SHAPE': shape, 'FA_CAP': 40, 'MAXPIECE': maxchunk, 'PM_NP': 7, 'PM_CAP': max(maxchunk, 2)}
+    name = 'match.s%d.ND%d' % (shape, nd)
+    if cuts is not None:
+        d['SPLIT'] = 1; d['CUTS'] = '{' + ','.join(str(c) for c in cuts) + ',999}'
+        name += '.' + label
+    else: name += '.bytewise'
+    k = maxchunk + 1
+    return Ob(name, 'mp/match.c', units=UM, models=['@libc_model.c', '@fixed_alloc.c', '@pieces_model.c'], remove=['htp_log', 'bstr_alloc', 'bstr_expand'], defines=d, unwind=8,
+              unwind_by=[(r'^harness\.', 60), (r'^htp_mpartp_parse\.6', k + 1), (r'^htp_mpartp_parse\.', k), (r'^htp_martp_process_aside', 6), (r'^htp_mpartp_init_boundary', 6), (r'^rec_data', k), (r'^strlen', 8), (r'^mk', 4), (r'^bstr_builder|^htp_list', max(9, k))],
+              restrict_by=[(r'handle_data', 'rec_data'), (r'handle_boundary', 'rec_boundary')],
+              fp_strict=True, tier=tier, timeout=timeout, mem_gb=mem_gb, statement='matcher', bounds='shape %d, %d symbolic data bytes' % (shape, nd))
+UP = ['bstr.c', 'htp_util.c', 'htp_utf8_decoder.c', 'htp_hooks.c']
+def part(variant, hc, dc, nd=2, tier='quick', timeout=600, mem_gb=8):
+    d = {'VARIANT': variant, 'HC': hc, 'DC': dc, 'ND': nd, 'FA_CAP': 72, 'PM_CAP': 72, 'PM_NP': 3, 'TM_MAXP': 3}
+    return Ob('part.v%d.hc%d.dc%d' % (variant, hc, dc), 'mp/part.c', units=UP, models=['@libc_model.c', '@fixed_alloc.c', '@pieces_model.c', '@table_model.c'], remove=['htp_log', 'bstr_alloc', 'bstr_expand'], defines=d, unwind=48,
+              unwind_by=[(r'^htp_list|^htp_table|^bstr_builder_clear|^bstr_builder_destroy', 8), (r'^htp_mpart_part_parse_c_d|^bstr_util_mem_index_of_mem\.0', 27), (r'^bstr_util_mem_index_of_mem\.1', 11), (r'^htp_mpart_decode_quoted', 5), (r'^bstr_util_cmp_mem_nocase', 21), (r'^strlen', 21), (r'^htp_mpartp_cd_param_type|^htp_parse_ct', 12)],
+              restrict_by=[(r'handle_data', 'htp_mpartp_handle_data'), (r'handle_boundary', 'htp_mpartp_handle_boundary'), (r'callback|->fn|\\.fn', 'cb_file')],
+              fp_strict=True, tier=tier, timeout=timeout, mem_gb=mem_gb, statement='part layer', bounds='variant %d, header cut %d, data cut %d' % (variant, hc, dc))
+NPRE = {0: 10, 1: 10, 2: 7, 3: 14, 4: 0, 5: 5}
+NPOST = {0: 9, 1: 21, 2: 7, 3: 11, 4: 21, 5: 16}
+def chunks(shape, nd, sizes, start=None):
+    """cut list: everything before `start` (default: start of D) one byte per call, then chunks of the given sizes, rest one byte per call"""
+    tot = NPRE[shape] + nd + NPOST[shape]
+    at = NPRE[shape] if start is None else start
+    cuts = list(range(1, at + 1))
+    for z in sizes:
+        at += z; cuts.append(at)
+    cuts += list(range(at + 1, tot + 1))
+    return [c for c in cuts if c <= tot]
 def obligations(tier):
-    return [ob(0)] + [ob(c) for c in (52, 53, 54, 56, 58)]
+    obs = [match(0, 2), match(0, 2, cuts=chunks(0, 2, [2, 2, 2]), maxchunk=2), part(0, 0, 0), part(0, 20, 1), match(0, 1, cuts=chunks(0, 1, [3], start=0), maxchunk=3, label='bnd_at_chunk_end')]
+    return obs
